@@ -55,11 +55,12 @@ def build(tier):
         exe = B.harness("h_c10", runtime=None, schema="utest")
     _STATE["exe"] = exe
     _STATE["both"] = thorough
-    return {"impl": [exe], "batch_timeout": 1800}
+    _STATE["asan"] = "detect_leaks=0:abort_on_error=0:halt_on_error=1:allocator_may_return_null=1:detect_stack_use_after_return=0"
+    return {"impl": [exe], "batch_timeout": 1800, "env": {"ASAN_OPTIONS": _STATE["asan"]}}
 
 
 def _dump(which):
-    env = dict(os.environ, ASAN_OPTIONS="detect_leaks=0")
+    env = dict(os.environ, ASAN_OPTIONS=_STATE["asan"])
     p = subprocess.run([_STATE["exe"], "--dump" + which], stdout=subprocess.PIPE, stderr=subprocess.PIPE, env=env, timeout=120)
     realms = []
     for line in p.stdout.decode(errors="replace").splitlines():
